@@ -79,7 +79,7 @@ def array_sum(a, axis=None):
     if axis is not None:
         return _axis_reduce(a, axis, v_sum)
     vals = _all_values(a)
-    if vals is not None and len(vals) <= 16:
+    if vals is not None and (len(vals) <= 16 or ctx().crossexec):
         return lift(v_sum(vals)) if vals else 0
     return symbolic_sum(a)
 
@@ -88,7 +88,7 @@ def array_mean(a, axis=None):
     if axis is not None:
         return _axis_reduce(a, axis, v_mean, "f")
     vals = _all_values(a)
-    if vals is not None and len(vals) <= 16:
+    if vals is not None and (len(vals) <= 16 or ctx().crossexec):
         return v_mean(vals)
     s = symbolic_sum(a)
     return div(s, a.size)
